@@ -376,14 +376,18 @@ where
 
       new_receiver
     } else {
-      // If the dispatcher is gone, create a dead receiver.
+      // The dispatcher is gone: every sender has been dropped. The clone is a
+      // receiver of a disconnected channel - open, but its (empty) mailbox is
+      // already disconnected, so every receive form reports Disconnected
+      // instead of waiting for messages that can never arrive.
       let (p, c) = mailbox::channel(0);
+      p.disconnect();
       Self {
         dispatcher: Weak::new(),
         consumer: c,
         producer_mailbox: Arc::new(p),
         subscriptions: Arc::new(Mutex::new(HashSet::new())),
-        closed: AtomicBool::new(true),
+        closed: AtomicBool::new(false),
       }
     }
   }
